@@ -1,6 +1,7 @@
 package core
 
 import (
+	"go/token"
 	"go/types"
 	"strings"
 
@@ -21,7 +22,35 @@ import (
 // receiver first (the interface value, or for a bound method the object the field was read from when the
 // receiver bound is that same object, else the loaded function value as an opaque receiver handle).
 // Everything else — including func-typed parameters, variables and fields assigned more than once — stays dynamic.
+// normalizeComparisons rewrites, in place, every comparison with its constant on the left (`0 < x`, `nil != err`)
+// to the mirrored form with the constant on the right (`x > 0`, `err != nil`): the same predicate, one shape for
+// the rules to read.
+func normalizeComparisons(c *Ctx) {
+	flip := map[token.Token]token.Token{token.LSS: token.GTR, token.GTR: token.LSS, token.LEQ: token.GEQ, token.GEQ: token.LEQ, token.EQL: token.EQL, token.NEQ: token.NEQ}
+	for _, fn := range c.AllFuncs {
+		for _, b := range fn.Blocks {
+			for _, in := range b.Instrs {
+				bo, ok := in.(*ssa.BinOp)
+				if !ok {
+					continue
+				}
+				nop, isCmp := flip[bo.Op]
+				if !isCmp {
+					continue
+				}
+				_, xk := bo.X.(*ssa.Const)
+				_, yk := bo.Y.(*ssa.Const)
+				if xk && !yk {
+					bo.X, bo.Y, bo.Op = bo.Y, bo.X, nop
+					c.Normalized++
+				}
+			}
+		}
+	}
+}
+
 func devirtualize(c *Ctx) {
+	normalizeComparisons(c)
 	// implementers of module interfaces
 	var named []*types.Named
 	for _, sp := range c.SSA {
